@@ -17,6 +17,7 @@ class RefJsonParser {
   explicit RefJsonParser(const std::string& text, bool useDouble = true) : s_(text), useDouble_(useDouble) {}
   // dialect extensions of the library, off by default (RFC 8259 only)
   bool allowNaN = false, allowInf = false;
+  bool allowPlus = false;  // a leading plus sign (one of the lenient spellings of the library's dialect)
 
   // parses exactly one value; trailing whitespace allowed, anything else is an error
   JsonParseResult parseDocument() {
@@ -84,7 +85,7 @@ class RefJsonParser {
       p_++;
       return kw("Infinity", Val::flt(-INFINITY));
     }
-    if (c == '-' || (c >= '0' && c <= '9'))
+    if (c == '-' || (c >= '0' && c <= '9') || (allowPlus && c == '+'))
       return number();
     fail("unexpected byte");
   }
@@ -254,8 +255,12 @@ class RefJsonParser {
   Val number() {
     size_t start = p_;
     bool neg = false;
+    bool plus = false;
     if (peek() == '-') {
       neg = true;
+      p_++;
+    } else if (allowPlus && peek() == '+') {
+      plus = true;
       p_++;
     }
     if (peek() == '0') {
@@ -288,7 +293,7 @@ class RefJsonParser {
     std::string lit = s_.substr(start, p_ - start);
     if (integral) {
       // exact 64-bit integers
-      const char* digits = lit.c_str() + (neg ? 1 : 0);
+      const char* digits = lit.c_str() + (neg || plus ? 1 : 0);
       unsigned __int128 acc = 0;
       bool big = false;
       for (const char* q = digits; *q; q++) {
@@ -458,12 +463,17 @@ class RefJsonWriter {
     char buf[64];
     switch (v.k) {
       case K::Int:
+        // (a leading plus sign is one of the lenient spellings of the documented dialect)
+        if (sp_.numbers && v.i >= 0 && coin(1, 10))
+          out_ += '+';
         snprintf(buf, sizeof buf, "%lld", (long long)v.i);
         out_ += buf;
         if (sp_.numbers && coin(1, 8))
           out_ += coin(1, 2) ? ".0" : "e0";
         return;
       case K::UInt:
+        if (sp_.numbers && coin(1, 10))
+          out_ += '+';
         snprintf(buf, sizeof buf, "%llu", (unsigned long long)v.u);
         out_ += buf;
         return;
@@ -486,6 +496,8 @@ class RefJsonWriter {
     std::string t = buf;
     if (t.find_first_of(".eEn") == std::string::npos)
       t += ".0";  // keep it a floating literal
+    if (sp_.numbers && d > 0 && coin(1, 10))
+      t = "+" + t;
     if (sp_.numbers && coin(1, 6)) {
       size_t e = t.find('e');
       if (e != std::string::npos)
